@@ -569,7 +569,16 @@ def dp(ck):
         w = where(fn, pa.node)
         comps = [x for x in T.subterms(v) if x[0] == "comp" and len(x[3]) == 1]
         empties = [x for x in comps if x[3][0][1] and x[3][0][1][0][0] == "attr" and x[3][0][1][0][2] == "empty"]
-        is_final = pa.node is fn.node.body[-1]
+        def tail_returns(body):
+            last = body[-1] if body else None
+            if isinstance(last, ast.Return):
+                return [last]
+            if isinstance(last, ast.If):
+                return tail_returns(last.body) + tail_returns(last.orelse)
+            return []
+        tails = tail_returns(fn.node.body)
+        # the function's last statement - or, when that is an if/else, the branch that hands back a chain
+        is_final = pa.node is fn.node.body[-1] or (len(tails) > 1 and pa.node in tails and v[0] == "concat")
         if is_final and v[0] != "concat":
             n_final += 1
             ck.violation("C14.4", short(fn) + ":empty-pass-through", w, "empty segments are not passed through with the chain",
